@@ -2,6 +2,9 @@
 C18 — Internal buffers stay bounded (the bounds that are local to one call).
 -/
 import GgrsModel.Model.Inventory
+import GgrsModel.Model.Sites.P2pSession
+import GgrsModel.Model.Sites.Protocol
+import GgrsModel.Model.Sites.SpectatorSession
 import GgrsModel.Proofs.RecvBound
 import GgrsModel.Model.Spectator
 import GgrsModel.Proofs.Monad
